@@ -271,3 +271,20 @@ func Evs(r Result) []Ev {
 	}
 	return out
 }
+
+// DialTimeout is Dial with its own bound on the wait for the greeting (added for C19).
+func DialTimeout(addr string, greeting time.Duration) (*Client, error) {
+	conn, err := net.DialTimeout("tcp", addr, 10*time.Second)
+	if err != nil {
+		return nil, err
+	}
+	c := &Client{conn: conn, r: bufio.NewReaderSize(conn, 1<<16), Timeout: greeting, TagPfx: "T"}
+	l, err := c.readLine()
+	if err != nil {
+		conn.Close()
+		return nil, err
+	}
+	c.Timeout = 60 * time.Second
+	c.Greeting = l.Text
+	return c, nil
+}
